@@ -23,10 +23,10 @@ KINDS = [
 ]
 
 
-def fields(kind: int, has_dest: bool, dest: str, naddr: int, version: int, now: int, ii: int, slack: int):
+def fields(kind: int, has_dest: bool, dest: str, naddr: int, version: int, now: int, ii: int, slack: int, tz: int = 0):
     """Request._loads/_verify on a handed-over request object: Destination is a symbolic string,
     the receiver has 0, 1 or 2 endpoints for the service, IssueInstant/now/slack are symbolic."""
-    ck = Clock(now)
+    ck = Clock(now, tz)
     cls, mk = KINDS[kind]
     msg = mk(id="id-q1", version=VERSIONS[version], issue_instant=ck.stamp(1, ii),
              issuer=saml.Issuer(text=F.SP_ID), destination=dest if has_dest else None)
@@ -195,6 +195,36 @@ def other_requests(rtype: int, signed: bool, verdict: bool, must: bool, dest: in
     return ok, acc | (not expect), "accepted=%s expected=%s exc=%r" % (acc, expect, exc)
 
 
+def signed_history(binding: int, must: bool, twice: bool):
+    """Two requests on one long-lived IdP object: a genuinely signed one (verification answers True),
+    then a copy with the same ID and Signature for which the tool answers False (content edited)."""
+    from veriflib.boot import concrete
+    binding, twice = concrete(binding), concrete(twice)
+    timemodel.set_clock(1000000, _CK.tab)
+    srv = IDP.server
+    srv.config.setattr("idp", "want_authn_requests_signed", must)
+    doc = DOCS[(True, binding, binding)]
+    BACK.verdict = {"id-q1": True}
+    BACK.asked = []
+    r1 = None
+    try:
+        r1 = srv.parse_authn_request(doc, BINDINGS[binding])
+        if twice:
+            srv.parse_authn_request(doc, BINDINGS[binding])
+    except Exception:
+        r1 = None
+    BACK.verdict = {"id-q1": False}
+    n_before = len(BACK.asked)
+    acc2 = False
+    try:
+        r2 = srv.parse_authn_request(doc, BINDINGS[binding])
+        acc2 = r2 is not None and r2.message is not None
+    except Exception:
+        acc2 = False
+    ok = (r1 is not None) & (not acc2) & (len(BACK.asked) > n_before)
+    return ok, True, "first=%s second=%s asked=%d" % (r1 is not None, acc2, len(BACK.asked))
+
+
 def malformed(which: int):
     timemodel.set_clock(1000000, _CK.tab)
     key = [("wrongroot", 0), ("garbage", 0), ("truncated", 0)][which]
@@ -212,15 +242,15 @@ _BIG = 1 << 33
 CONDITIONS = [
     Cond(name="fields", fn="fields",
          params=[("kind", "int"), ("has_dest", "bool"), ("dest", "str"), ("naddr", "int"), ("version", "int"),
-                 ("now", "int"), ("ii", "int"), ("slack", "int")],
-         pre=["0 <= kind < 3", "len(dest) <= 40", "0 <= naddr <= 2", "0 <= version < %d" % len(VERSIONS),
+                 ("now", "int"), ("ii", "int"), ("slack", "int"), ("tz", "int")],
+         pre=["-12 <= tz <= 14", "0 <= kind < 3", "len(dest) <= 40", "0 <= naddr <= 2", "0 <= version < %d" % len(VERSIONS),
               "0 < now <= %d" % _BIG, "0 < ii <= %d" % _BIG, "0 <= slack <= 315360000"],
          partitions={"quick": [{"kind": k, "naddr": n} for k in range(3) for n in range(3)]},
          timeout={"quick": 600, "thorough": 1200}, path_timeout=60,
          functions=["request.Request._loads", "request.Request._verify", "request.Request.issue_instant_ok", "request.Request.verify",
                     "time_util.shift_time/time_in_a_while/time_a_while_ago/str_to_time"],
          bounds="AuthnRequest / LogoutRequest / AttributeQuery; Destination absent or ANY string <= 40 chars vs 0, 1 or 2 own endpoints; "
-                "Version in {2.0, 1.1, 3.0, x}; now, IssueInstant in (0, 2^33], slack in [0, 10 y]"),
+                "Version in {2.0, 1.1, 3.0, x}; now, IssueInstant in (0, 2^33], slack in [0, 10 y]; process time zone -12..+14 h"),
     Cond(name="invalid", fn="invalid", params=[("kind", "int"), ("drop", "int")],
          pre=["0 <= kind < 3", "0 <= drop <= 5"], partitions={"quick": [{}]}, timeout={"quick": 300, "thorough": 300},
          functions=["request.Request._loads", "validate.valid_instance"],
@@ -241,6 +271,10 @@ CONDITIONS = [
          functions=["entity.Entity.parse_logout_request/parse_manage_name_id_request", "server.Server.parse_attribute_query", "entity.Entity._parse_request",
                     "entity.Entity.unravel (SOAP)", "soap.parse_soap_enveloped_saml_*", "sigver.SecurityContext.correctly_signed_logout_request/_attribute_query/_manage_name_id_request"],
          bounds="LogoutRequest / AttributeQuery / ManageNameIDRequest in a SOAP envelope x signature present/absent x verdict x want_authn_requests_signed x Destination {own SOAP endpoint, foreign, absent}"),
+    Cond(name="signed_history", fn="signed_history", params=[("binding", "int"), ("must", "bool"), ("twice", "bool")],
+         pre=["0 <= binding <= 1"], partitions={"quick": [{"binding": 0}, {"binding": 1}]}, timeout={"quick": 600, "thorough": 900}, path_timeout=120,
+         functions=["server.Server.parse_authn_request (two / three calls on one Server)", "sigver.SecurityContext._check_signature"],
+         bounds="histories on one IdP object: a verified signed request (once or twice), then the same ID and Signature with a failing verification"),
     Cond(name="malformed", fn="malformed", params=[("which", "int")], pre=["0 <= which <= 2"],
          partitions={"quick": [{}]}, timeout={"quick": 300, "thorough": 300}, twin=False,
          functions=["entity.Entity._parse_request", "entity.Entity.unravel", "sigver.SecurityContext.correctly_signed_message"],
